@@ -170,6 +170,8 @@ impl CryptoCore {
             extra.write_u8(self.current_key as u8).unwrap();
             extra.write_all(&key.send_nonce.as_bytes()[5..]).unwrap();
         }
+        #[cfg(feature = "dswd_vpncloud_verif")]
+        verif_log_seal(&key.key, key.send_nonce.as_bytes());
         let nonce = aead::Nonce::assume_unique_for_key(*key.send_nonce.as_bytes());
         let tag = key.key.seal_in_place_separate_tag(nonce, aead::Aad::empty(), data).expect("Failed to encrypt");
         tag_space.clone_from_slice(tag.as_ref());
@@ -228,6 +230,91 @@ impl CryptoCore {
         for k in &mut self.keys {
             k.update_min_nonce();
         }
+    }
+}
+
+// ---- verification hooks (guarded) ----
+
+/// One entry of the seal log: fingerprint of the key material and the full 12-byte nonce used.
+#[cfg(feature = "dswd_vpncloud_verif")]
+#[derive(Debug, Clone, PartialEq, Eq, PartialOrd, Ord, Hash)]
+pub struct VerifSeal {
+    pub fingerprint: [u8; 16],
+    pub nonce: [u8; NONCE_LEN],
+}
+
+#[cfg(feature = "dswd_vpncloud_verif")]
+thread_local! {
+    static VERIF_SEAL_LOG: std::cell::RefCell<Option<Vec<VerifSeal>>> = const { std::cell::RefCell::new(None) };
+}
+
+/// Switch the thread-local seal log on (emptying it) or off.
+#[cfg(feature = "dswd_vpncloud_verif")]
+pub fn verif_seal_log_enable(on: bool) {
+    VERIF_SEAL_LOG.with(|l| *l.borrow_mut() = if on { Some(Vec::new()) } else { None })
+}
+
+/// Take the entries logged so far (log stays enabled).
+#[cfg(feature = "dswd_vpncloud_verif")]
+pub fn verif_seal_log_take() -> Vec<VerifSeal> {
+    VERIF_SEAL_LOG.with(|l| l.borrow_mut().as_mut().map(mem::take).unwrap_or_default())
+}
+
+/// Fingerprint of a key: AEAD tag of the empty string under the reserved nonce ff..ff, which is never a
+/// protocol nonce (the first byte of a protocol nonce is only ever 0x00 or 0x80).
+#[cfg(feature = "dswd_vpncloud_verif")]
+fn verif_fingerprint(key: &LessSafeKey) -> [u8; 16] {
+    let nonce = aead::Nonce::assume_unique_for_key([0xff; NONCE_LEN]);
+    let tag = key.seal_in_place_separate_tag(nonce, aead::Aad::empty(), &mut []).expect("Failed to encrypt");
+    let mut fp = [0; 16];
+    fp.copy_from_slice(tag.as_ref());
+    fp
+}
+
+#[cfg(feature = "dswd_vpncloud_verif")]
+fn verif_log_seal(key: &LessSafeKey, nonce: &[u8; NONCE_LEN]) {
+    VERIF_SEAL_LOG.with(|l| {
+        if let Some(log) = l.borrow_mut().as_mut() {
+            log.push(VerifSeal { fingerprint: verif_fingerprint(key), nonce: *nonce })
+        }
+    })
+}
+
+/// Runs the counter increment on a chosen value.
+#[cfg(feature = "dswd_vpncloud_verif")]
+pub fn verif_increment(bytes: [u8; NONCE_LEN]) -> [u8; NONCE_LEN] {
+    let mut n = Nonce(bytes);
+    n.increment();
+    n.0
+}
+
+#[cfg(feature = "dswd_vpncloud_verif")]
+impl CryptoCore {
+    /// Sets the sending counter of the current key (to reach carry boundaries and the 56-bit limit).
+    pub fn verif_set_send_nonce(&mut self, bytes: [u8; NONCE_LEN]) {
+        self.keys[self.current_key].send_nonce = Nonce(bytes)
+    }
+
+    pub fn verif_send_nonce(&self) -> [u8; NONCE_LEN] {
+        self.keys[self.current_key].send_nonce.0
+    }
+
+    pub fn verif_current_key(&self) -> usize {
+        self.current_key
+    }
+
+    pub fn verif_nonce_half(&self) -> bool {
+        self.nonce_half
+    }
+
+    /// Fingerprints of the four key slots.
+    pub fn verif_fingerprints(&self) -> [[u8; 16]; 4] {
+        [
+            verif_fingerprint(&self.keys[0].key),
+            verif_fingerprint(&self.keys[1].key),
+            verif_fingerprint(&self.keys[2].key),
+            verif_fingerprint(&self.keys[3].key),
+        ]
     }
 }
 
